@@ -221,6 +221,78 @@ def check_shutdown_wakeup(ctx: Ctx, oid: str) -> None:
                              construct="idle-primary-not-woken", path=cfgt.describe_path(path))
 
 
+def check_reply_completion(ctx: Ctx, oid: str) -> None:
+    """Reply.run publishes the result event itself, in a finally, on every exit; get() waits for it and returns/raises the stored
+    outcome -- completion does not depend on any lock of the pool (shared: C09.e, C14.f)"""
+    repo = ctx.repo
+    fr = repo.func("gateway_base.Reply.run")
+    cfgr = build_cfg(repo, fr, Oracle(repo, fr))
+    with ctx.obligation(oid, "reply-finally") as ob:
+        sets = cfg_nodes_with_call(cfgr, lambda c: callee_attr(c) == "set" and "_result_ready" in unparse(c.func))
+        if not sets:
+            ob.violation(fr, fr.node, "Reply.run does not publish its completion itself (_result_ready.set() in a finally): whoever sets the event elsewhere does so under "
+                                      "locks or after bookkeeping that a waiter may be holding / waiting for", construct="no _result_ready.set() in Reply.run")
+            return
+        for ex, kind in ((cfgr.exit.id, "return"), (cfgr.raise_exit.id, "raise")):
+            p = cfgr.must_pass([cfgr.entry.id], [ex], {s.id for s in sets})
+            ob.site(fr, fr.node, f"ENTRY->{kind.upper()} passes _result_ready.set()")
+            if p is not None:
+                ob.violation(fr, fr.node, f"Reply.run can finish ({kind}) without setting _result_ready: waiters block forever",
+                             construct=f"exit:{kind}", path=cfgr.describe_path(p))
+        # task call protected by a BaseException handler storing _exc
+        tasks = [c for c in repo.calls_in(fr) if isinstance(c.func, ast.Name) and c.func.id == "func"]
+        ob.require(len(tasks) == 1, "task invocation func(*args, **kwargs) not found exactly once")
+        tcall = tasks[0]
+        stored = False
+        for anc in repo.ancestors(tcall):
+            if isinstance(anc, ast.Try):
+                for h in anc.handlers:
+                    hc = unparse(h.type) if h.type is not None else "BaseException"
+                    if hc == "BaseException" and any(
+                            isinstance(s, ast.Assign) and unparse(s.targets[0]) == "self._exc" and h.name
+                            and unparse(s.value) == h.name for s in h.body) \
+                            and not any(isinstance(x, ast.Raise) for s in h.body for x in ast.walk(s)):
+                        stored = True
+        asg = repo.parent(tcall)
+        res_ok = isinstance(asg, ast.Assign) and unparse(asg.targets[0]) == "self._result" and asg.value is tcall
+        ob.site(fr, tcall, "result stored / exception stored", result_store=res_ok, exc_store=stored)
+        if not res_ok:
+            ob.violation(fr, tcall, "the task's return value is not stored unmodified in _result")
+        if not stored:
+            ob.violation(fr, tcall, "exceptions of the task are not captured (BaseException handler storing the exception in _exc)")
+        # run-once: exactly one invocation, not in a loop
+        if any(isinstance(a, (ast.For, ast.While)) for a in repo.ancestors(tcall) if a is not fr.node):
+            ob.violation(fr, tcall, "the task is invoked inside a loop")
+        fg = repo.func("gateway_base.Reply.get")
+        cfgg = build_cfg(repo, fg, Oracle(repo, fg, precise=True))
+        wf = cfg_nodes_with_call(cfgg, lambda c: callee_attr(c) == "waitfinish")
+        ob.require(bool(wf), "waitfinish missing in Reply.get")
+        p = cfgg.must_pass([cfgg.entry.id], [cfgg.exit.id, cfgg.raise_exit.id], {w.id for w in wf})
+        if p is not None:
+            ob.violation(fg, fg.node, "Reply.get can return without waiting for completion", path=cfgg.describe_path(p))
+        rets = [n for n in repo.own_nodes(fg) if isinstance(n, ast.Return)]
+        raises = [n for n in repo.own_nodes(fg) if isinstance(n, ast.Raise)]
+        ob.site(fg, fg.node, "get returns _result / raises _exc", returns=[norm(r) for r in rets], raises=[norm(r) for r in raises])
+        from ..terms import evaluator as _evg
+        evg = _evg(repo, fg)
+        nret = 0
+        ret_ok = True
+        for (pth, st_) in evg.run(limit=4000):
+            if pth[-1][0] == evg.cfg.exit.id:
+                nret += 1
+                if st_.ret != ("sym", "self._result"):
+                    ret_ok = False
+        if not ret_ok or nret == 0:
+            ob.violation(fg, rets[0] if rets else fg.node, "Reply.get does not return exactly the stored _result")
+        if [unparse(r.exc) for r in raises] != ["self._exc"]:
+            ob.violation(fg, raises[0] if raises else fg.node, "Reply.get does not re-raise exactly the stored exception")
+        # the timeout of get reaches waitfinish
+        for w in wf:
+            c = [c for c in calls_in_node(w) if callee_attr(c) == "waitfinish"][0]
+            if not (c.args and unparse(c.args[0]) == "timeout") and not any(k.arg == "timeout" and unparse(k.value) == "timeout" for k in c.keywords):
+                ob.violation(fg, c, "Reply.get does not forward its timeout to waitfinish")
+
+
 def check(ctx: Ctx) -> None:
     repo = ctx.repo
     ctx.decides = ("lock discipline of the pool state, no blocking under the pool lock, guarded one-slot mailbox, "
@@ -327,69 +399,7 @@ def check(ctx: Ctx) -> None:
     check_shutdown_wakeup(ctx, "C09.j")
 
     # ---- C09.e Reply.run / get
-    fr = repo.func("gateway_base.Reply.run")
-    cfgr = build_cfg(repo, fr, Oracle(repo, fr))
-    with ctx.obligation("C09.e", "reply-finally") as ob:
-        sets = cfg_nodes_with_call(cfgr, lambda c: callee_attr(c) == "set" and "_result_ready" in unparse(c.func))
-        ob.require(bool(sets), "_result_ready.set() missing in Reply.run")
-        for ex, kind in ((cfgr.exit.id, "return"), (cfgr.raise_exit.id, "raise")):
-            p = cfgr.must_pass([cfgr.entry.id], [ex], {s.id for s in sets})
-            ob.site(fr, fr.node, f"ENTRY->{kind.upper()} passes _result_ready.set()")
-            if p is not None:
-                ob.violation(fr, fr.node, f"Reply.run can finish ({kind}) without setting _result_ready: waiters block forever",
-                             construct=f"exit:{kind}", path=cfgr.describe_path(p))
-        # task call protected by a BaseException handler storing _exc
-        tasks = [c for c in repo.calls_in(fr) if isinstance(c.func, ast.Name) and c.func.id == "func"]
-        ob.require(len(tasks) == 1, "task invocation func(*args, **kwargs) not found exactly once")
-        tcall = tasks[0]
-        stored = False
-        for anc in repo.ancestors(tcall):
-            if isinstance(anc, ast.Try):
-                for h in anc.handlers:
-                    hc = unparse(h.type) if h.type is not None else "BaseException"
-                    if hc == "BaseException" and any(
-                            isinstance(s, ast.Assign) and unparse(s.targets[0]) == "self._exc" and h.name
-                            and unparse(s.value) == h.name for s in h.body) \
-                            and not any(isinstance(x, ast.Raise) for s in h.body for x in ast.walk(s)):
-                        stored = True
-        asg = repo.parent(tcall)
-        res_ok = isinstance(asg, ast.Assign) and unparse(asg.targets[0]) == "self._result" and asg.value is tcall
-        ob.site(fr, tcall, "result stored / exception stored", result_store=res_ok, exc_store=stored)
-        if not res_ok:
-            ob.violation(fr, tcall, "the task's return value is not stored unmodified in _result")
-        if not stored:
-            ob.violation(fr, tcall, "exceptions of the task are not captured (BaseException handler storing the exception in _exc)")
-        # run-once: exactly one invocation, not in a loop
-        if any(isinstance(a, (ast.For, ast.While)) for a in repo.ancestors(tcall) if a is not fr.node):
-            ob.violation(fr, tcall, "the task is invoked inside a loop")
-        fg = repo.func("gateway_base.Reply.get")
-        cfgg = build_cfg(repo, fg, Oracle(repo, fg, precise=True))
-        wf = cfg_nodes_with_call(cfgg, lambda c: callee_attr(c) == "waitfinish")
-        ob.require(bool(wf), "waitfinish missing in Reply.get")
-        p = cfgg.must_pass([cfgg.entry.id], [cfgg.exit.id, cfgg.raise_exit.id], {w.id for w in wf})
-        if p is not None:
-            ob.violation(fg, fg.node, "Reply.get can return without waiting for completion", path=cfgg.describe_path(p))
-        rets = [n for n in repo.own_nodes(fg) if isinstance(n, ast.Return)]
-        raises = [n for n in repo.own_nodes(fg) if isinstance(n, ast.Raise)]
-        ob.site(fg, fg.node, "get returns _result / raises _exc", returns=[norm(r) for r in rets], raises=[norm(r) for r in raises])
-        from ..terms import evaluator as _evg
-        evg = _evg(repo, fg)
-        nret = 0
-        ret_ok = True
-        for (pth, st_) in evg.run(limit=4000):
-            if pth[-1][0] == evg.cfg.exit.id:
-                nret += 1
-                if st_.ret != ("sym", "self._result"):
-                    ret_ok = False
-        if not ret_ok or nret == 0:
-            ob.violation(fg, rets[0] if rets else fg.node, "Reply.get does not return exactly the stored _result")
-        if [unparse(r.exc) for r in raises] != ["self._exc"]:
-            ob.violation(fg, raises[0] if raises else fg.node, "Reply.get does not re-raise exactly the stored exception")
-        # the timeout of get reaches waitfinish
-        for w in wf:
-            c = [c for c in calls_in_node(w) if callee_attr(c) == "waitfinish"][0]
-            if not (c.args and unparse(c.args[0]) == "timeout") and not any(k.arg == "timeout" and unparse(k.value) == "timeout" for k in c.keywords):
-                ob.violation(fg, c, "Reply.get does not forward its timeout to waitfinish")
+    check_reply_completion(ctx, "C09.e")
 
     # ---- C09.f spawn-refuse
     fs = repo.func(f"{POOL}.spawn")
